@@ -185,6 +185,7 @@ def hashable_keys(x):
 
 
 def run(rep, tier, seed):
+    gd.pollute()        # same-named custom callables have been used in this process before any spec is parsed
     a = tlc.model_check_sharded("MC_Malformed", "MC_Malformed.cfg", nshards=8)
     rep.add_tlc(a, "A:MC_Malformed")
     if not a["ok"]:
@@ -203,6 +204,32 @@ def run(rep, tier, seed):
         events.append(e)
         recipes[e["id"]] = {"op": op, "spec": lit, "injected": label}
         rep.note_case(repr(lit) + op)
+    # YAML documents whose TOP LEVEL is not the mapping {"rules": [...]}: through the text and the file entry points
+    import os
+    import tempfile
+    import valida
+    for text, loaded in [("", None), ("# nothing here\n", None), ("- path: [a]\n  condition: {value.eq: 1}\n", 0), ("5\n", 5),
+                         ("rules\n", "rules"), ("rule: []\n", 0), ("rules: 5\n", 5), ("rules: {a: 1}\n", {"a": 1}),
+                         ("rules:\n", None), ("[]\n", 0), ("rules: [5]\n", [5]), ("Rules: []\n", 0)]:
+        for route in ("yaml", "yaml_file"):
+            if route == "yaml":
+                parser = lambda text=text: valida.Schema.from_yaml(text)      # noqa: E731
+                path = None
+            else:
+                fd, path = tempfile.mkstemp(suffix=".yaml", dir=os.path.join(tlc.VERIF, "out"))
+                os.write(fd, text.encode())
+                os.close(fd)
+                parser = lambda path=path: valida.Schema.from_yaml_file(path)   # noqa: E731
+            try:
+                # the specification judges the structure under "rules" (anything that is not a list of rule mappings: err)
+                e = gd.parse_event(len(events) + 1, "parse_schema", None, parser=parser, spec_for_tlc=loaded)
+            finally:
+                if path:
+                    os.remove(path)
+            events.append(e)
+            recipes[e["id"]] = {"op": "parse_schema", "spec": to_lit(loaded), "injected": "YAML top level is not {rules: [...]}",
+                                "route": route, "text": text}
+            rep.note_case(text + route)
     # structural fuzz of well-formed specs
     base_events, base_rec = [], {}
     c10.make_events(rep, rng, 1000 * n, base_events, base_rec, with_dsl=False)
